@@ -66,13 +66,15 @@ pub fn check_outcomes(log: &RunLog, obs: &mut Obs) -> Result<Option<oracle::Trut
         let mut sent: BTreeMap<u8, usize> = BTreeMap::new();
         let mut recv: BTreeMap<u8, usize> = BTreeMap::new();
         let mut failed: BTreeMap<u8, usize> = BTreeMap::new();
+        let mut by_host: BTreeMap<(u8, std::net::IpAddr), usize> = BTreeMap::new();
         for (k, r) in truth.rounds.iter().enumerate() {
             for (i, e) in r.iter().enumerate() {
                 let ttl_of_failed = || log.sends[truth.round_sends[k][i]].wire.as_ref().map(|w| w.ttl);
                 match e {
-                    Expected::Complete { ttl, .. } => {
+                    Expected::Complete { ttl, host, .. } => {
                         *sent.entry(*ttl).or_default() += 1;
                         *recv.entry(*ttl).or_default() += 1;
+                        *by_host.entry((*ttl, *host)).or_default() += 1;
                     }
                     Expected::Awaited { ttl, .. } => {
                         *sent.entry(*ttl).or_default() += 1;
@@ -113,6 +115,10 @@ pub fn check_outcomes(log: &RunLog, obs: &mut Obs) -> Result<Option<oracle::Trut
                 h.total_recv(),
                 h.total_failed()
             );
+            // ... and so are the totals per responder
+            let want: BTreeMap<std::net::IpAddr, usize> = by_host.iter().filter(|((ttl, _), _)| *ttl == t).map(|((_, a), n)| (*a, *n)).collect();
+            let got: BTreeMap<std::net::IpAddr, usize> = h.addrs_with_counts().map(|(a, n)| (*a, *n)).collect();
+            vensure!(got == want, "snapshot-responder-totals", "hop ttl {t}: responses per responder {got:?} but the outcomes sum to {want:?}");
         }
     }
     Ok(Some(truth))
